@@ -115,7 +115,8 @@ def malformed_case(draw, tier):
             "form": draw(st.sampled_from(["ndarray", "csr", "lists",
                                           "dict", "list_arrays",
                                           "list_sparse", "list_dicts",
-                                          "csc", "coo", "ndarray_int"])),
+                                          "csc", "coo", "ndarray_int", "dok",
+                                          "lil", "bsr"])),
             "rows": None}
 
 
